@@ -24,7 +24,7 @@ RULES = {
           "obligation: draw() finalizes on every exit after the call; RenderIterator.__init__ does nothing that can fail between obtaining the "
           "data and running the generator up to its first yield, where _iterate has stored it for close()",
     "R3": "error paths close the iterator: every handler of RenderIterator.__next__ calls self.close() before raising, except the "
-          "already-closed branch; __del__ calls close()",
+          "already-closed branch; __del__ calls close(); __del__ calls close() unconditionally",
     "R4": "caller-owned data is left alone: _finalize_data is stored only from the literal True (__init__) and from the `finalize` parameter "
           "(_from_render_data_); _animate_ passes finalize=False; close() finalizes only under that flag",
     "R5": "no render with finalized data: _from_render_data_ rejects finalized data before creating the generator; close() closes the "
